@@ -30,7 +30,7 @@ class ModuleInfo(object):
 
 
 JS_DIR = os.path.join(REPO, 'rbql-js')
-JS_MODULES = {'js_csv_utils': 'csv_utils.js', 'js_rbql': 'rbql.js'}      # module name in contracts -> file under rbql-js (translated by pyvc/jsfront.py)
+JS_MODULES = {'js_csv_utils': 'csv_utils.js', 'js_rbql': 'rbql.js', 'js_rbql_csv': 'rbql_csv.js'}      # module name in contracts -> file under rbql-js (translated by pyvc/jsfront.py)
 
 
 class JSModuleInfo(ModuleInfo):
